@@ -35,7 +35,8 @@ def obj_record(obj):
         lo, hi = R.byte_bounds(obj)
         import ctypes
         ptr = obj.__array_interface__["data"][0]
-        return {"kind": "ndarray", "dtype": obj.dtype.str, "shape": list(obj.shape), "strides": list(obj.strides),
+        return {"kind": "ndarray", "dtype": obj.dtype.str if not obj.dtype.names else [list(x) for x in obj.dtype.descr],
+                "shape": list(obj.shape), "strides": list(obj.strides),
                 "offset": ptr - lo, "buf": (ctypes.string_at(lo, hi - lo) if hi > lo else b"").hex()}
     if isinstance(obj, np.generic):
         return {"kind": "npscalar", "dtype": obj.dtype.str, "buf": np.array(obj).tobytes().hex()}
@@ -56,9 +57,10 @@ def obj_rebuild(r):
     k = r["kind"]
     if k == "ndarray":
         buf = bytearray(bytes.fromhex(r["buf"]))
+        dt = np.dtype(r["dtype"]) if isinstance(r["dtype"], str) else np.dtype([tuple(x) for x in r["dtype"]])
         if not buf:
-            return np.zeros(r["shape"], dtype=r["dtype"])
-        return np.ndarray(tuple(r["shape"]), dtype=np.dtype(r["dtype"]), buffer=buf, offset=r["offset"],
+            return np.zeros(r["shape"], dtype=dt)
+        return np.ndarray(tuple(r["shape"]), dtype=dt, buffer=buf, offset=r["offset"],
                           strides=tuple(r["strides"]))
     if k == "npscalar":
         return np.frombuffer(bytes.fromhex(r["buf"]), r["dtype"])[0]
@@ -236,6 +238,10 @@ def check_cells(ctx, rng, cases):
     if xdr is not None and flat and nrows == 1:
         cases.append(("xdr-src-rec (%s) (%s)" % (" ".join(types), " ".join(cell_rows[0])),
                       "(ok %s)" % hexb(xdr[4:-4]), {"cells": case["cells"]}))
+    if xdr is not None:
+        cases.append(("xdr-src-rows (%s) (%s)" % (" ".join(types), " ".join(
+            "(%s)" % " ".join("(%d %s)" % (b, c) for b, c in zip(br, cr)) for br, cr in zip(big_rows, cell_rows))),
+            "(ok %s)" % hexb(xdr), {"cells": case["cells"]}))
     if xdr is not None and not flat and nrows == 1:
         cases.append(("xdr-src-recg (%s)" % " ".join("(%d %s)" % (b, c) for b, c in zip(big_rows[0], cell_rows[0])),
                       "(ok %s)" % hexb(xdr[4:-4]), {"cells": case["cells"]}))
@@ -247,6 +253,77 @@ def check_cells(ctx, rng, cases):
             chars = a.dtype.itemsize if a.dtype.char == "S" else a.dtype.itemsize // 4 if a.dtype.char == "U" else 0
             cases.append(("xdr-src-cellarr %d %s" % (big, cell), "(%s %d %s)" % (a.dtype.char, chars, hexb(a.tobytes())),
                           {"cells": case["cells"]}))
+
+
+# ---------------------------------------------------------------------------------------------------
+# numpy-backed sequences: a structured array whose fields have their own dtype char / byte order / width
+def build_recarray(rng, cols, vals_rows):
+    n = len(vals_rows)
+    fields, colarrs = [], []
+    for j, (name, ty) in enumerate(cols):
+        vals = [r[j] for r in vals_rows]
+        c = rng.choice(R.chars_for(ty, vals))
+        order = rng.choice("<>") if c not in "Bb?S" else "<"
+        a = R.logical(ty, (n,), vals, c, order, width_extra=rng.choice([0, 0, 2]))
+        fields.append((name, a.dtype))
+        colarrs.append(a)
+    layout = rng.choice(["C", "strided", "rev", "offset"])
+    m = {"C": n, "strided": 2 * n, "rev": n, "offset": n + 3}[layout]
+    big = np.zeros((m,), dtype=fields)
+    view = {"C": big, "strided": big[::2], "rev": big[::-1], "offset": big[2:2 + n]}[layout]
+    for (name, _), a in zip(cols, colarrs):
+        view[name] = a
+    return view, layout
+
+
+def judge_recarray(cols, vals_rows, arr):
+    from pydap.handlers.lib import BaseHandler
+    from pydap.model import BaseType, DatasetType, SequenceType
+
+    t = ("sq", "q", [("b", ty, (), name, False) for name, ty in cols], "numpy")
+    ref = X.ref_enc(t, vals_rows)
+    ds = DatasetType("d")
+    s = SequenceType("q")
+    for name, _ty in cols:
+        s[name] = BaseType(name)
+    s.data = arr
+    ds["q"] = s
+    try:
+        raw = X.get(BaseHandler(ds), "/d.dods").body
+    except Exception as e:
+        return [("GET .dods of a numpy-backed sequence raised %s" % type(e).__name__, repr(e)[:200], ref.hex())], None
+    if not raw.startswith(b"Dataset {") or b"Data:\n" not in raw:
+        return [("no data response for a numpy-backed sequence", raw[:160].decode("latin1"), ref.hex())], None
+    dds, xdr = X.split_body(raw)
+    fails = []
+    if xdr != ref:
+        fails.append(("bytes of a numpy-backed sequence differ from the reference encoding of the rows held", xdr.hex(), ref.hex()))
+    text = dds.decode("latin1")
+    for name, ty in cols:
+        if "        %s %s;" % (ty, name) not in text:
+            fails.append(("the DDS declares another type than the field's", text, "%s %s" % (ty, name)))
+            break
+    return fails, xdr
+
+
+def check_recarray(ctx, rng, cases):
+    types = [rng.choice(X.TYPES) for _ in range(rng.randint(1, 3))]
+    cols = [("c%d" % i, ty) for i, ty in enumerate(types)]
+    n = rng.choice([0, 1, 2, 3])
+    vals_rows = [[X.gen_value(rng, ty) for ty in types] for _ in range(n)]
+    arr, layout = build_recarray(rng, cols, vals_rows)
+    fails, xdr = judge_recarray(cols, vals_rows, arr)
+    case = {"recarray": {"cols": cols, "vals": pack(vals_rows), "arr": obj_record(arr), "layout": layout,
+                         "names": [c[0] for c in cols]}}
+    for what, obs, exp in fails:
+        ctx.oracle_fail(what, case, obs, exp, size=len(json.dumps(case)))
+    ctx.tags["recarray:" + layout] += 1
+    for name, _ in cols:
+        ctx.tags["recfield:" + arr.dtype[name].str[:2]] += 1
+    ctx.count(("recarray", repr(cols), layout, arr.dtype.str, repr(vals_rows)[:200]), True)
+    if xdr is not None:
+        cases.append(("xdr-src-seq (%s) (%s) %d" % (" ".join(types), " ".join(R.arr_sexp(arr[name]) for name, _ in cols), n),
+                      "(ok %s)" % hexb(xdr), {"recarray": case["recarray"]}))
 
 
 # ---------------------------------------------------------------------------------------------------
@@ -268,6 +345,8 @@ def explore(ctx, label, n_random, client=False, every_type=True):
         check_value(ctx, rng, t[1], t[2], d if t[2] else [d], cases, client, budget=5)
     for _ in range(n_random):
         check_cells(ctx, rng, cases)
+    for _ in range(n_random):
+        check_recarray(ctx, rng, cases)
     check_outside(ctx, cases)
     ctx.correspond("encArr / NpArr.data? / encCellsFlat vs responses.dods on the real memory of the source", cases)
 
@@ -280,6 +359,11 @@ def replay_case(c):
         vals = [[bytes.fromhex(v[1:]) if isinstance(v, str) else v for v in row] for row in cc["vals"]]
         objs = [[obj_rebuild(o) for o in row] for row in cc["objs"]]
         fails, _ = judge_cells(cols, vals, objs)
+    elif "recarray" in c:
+        cc = c["recarray"]
+        cols = [tuple(x) for x in cc["cols"]]
+        vals = [[bytes.fromhex(v[1:]) if isinstance(v, str) else v for v in row] for row in cc["vals"]]
+        fails, _ = judge_recarray(cols, vals, obj_rebuild(cc["arr"]))
     elif "obj" in c:
         vals = unpack_vals(c["ty"], c["vals"])
         fails, _, _ = judge_obj(c["ty"], tuple(c["shape"]), vals, obj_rebuild(c["obj"]), c.get("client", False))
